@@ -1,5 +1,6 @@
 import Srtla.Model.Conn
 import Srtla.Lemmas.Conn
+import Srtla.Lemmas.SysDirWin
 /-!
 # C06 — congestion windows stay in range and move in the right direction
 
@@ -214,5 +215,998 @@ example :
 /-- Non-vacuity for the extreme in-flight clause: with `i32::MAX` packets in flight the
 saturating product still reads "grow" and the window takes one ordinary +29 step. -/
 example : ackClassic 1500 2147483647 = 1529 := by decide
+
+/-! # Round 3 — shell level: direction, resets and fast recovery over `Sys.step`
+
+`Lemmas/SysDir.lean` walks through `Sys.step` once for a two-state relation (`LinkRun`, `step_run`): the
+record of the link at index `j` after ANY event is obtained from its record before the event by a finite
+sequence of the per-link operations that event may apply to that link.  Here:
+
+* `C06_shell_refines` — on the window view `proj l.core` every event is, link by link, a history of THIS
+  file's abstract machine (`applyOp`), using only the abstract ops the event allows (`shellOk`): the NAK rule
+  only in a NAK datagram (type 0x8003), the ACK rules only in an SRTLA-ACK datagram (0x9100; classic rule
+  iff classic mode), `mark_for_recovery` only after a failed send of a client datagram or on REG_ERR (0x9210,
+  arrival link only), `reset_for_reconnect` and the time-based recovery only in housekeeping (the latter only
+  if NOT classic), REG3 (0x9202) only on its arrival link; liveness flags: only `heard` is free, `connected`
+  changes only through those tear-downs / REG3.
+* `C06_direction_client / _flush / _config / _uplink / _hk`, `C06_direction_sys` — direction of every window
+  change of every link in every event.
+* `C06_reset_ops`, `C06_reset_sys` — the tear-downs.
+* `C06_fast_recovery_sys`, `C06_fast_recovery_run` — entry / exit of fast recovery, per event and along runs.
+
+Scalar-generic (hold at `Float`).
+-/
+
+section shell
+open Srtla Srtla.Link
+
+/-- History-level reachability in the abstract machine; the legality of an op may depend on the state it
+is applied to. -/
+inductive Reach (ok : WS → Op → Prop) : WS → WS → Prop
+  | refl (a : WS) : Reach ok a a
+  | step {a b : WS} (op : Op) : Reach ok a b → ok b op → Reach ok a (applyOp b op)
+
+theorem Reach.trans {ok : WS → Op → Prop} {a b c : WS} (h1 : Reach ok a b) (h2 : Reach ok b c) : Reach ok a c := by
+  induction h2 with
+  | refl => exact h1
+  | step op _ hok ih => exact .step op ih hok
+
+/-- `Reach` is reachability by a history (`run`) of the abstract machine. -/
+theorem Reach.exists_run {ok : WS → Op → Prop} {a b : WS} (h : Reach ok a b) : ∃ ops : List Op, b = run a ops := by
+  induction h with
+  | refl => exact ⟨[], rfl⟩
+  | step op _ _ ih =>
+    obtain ⟨ops, rfl⟩ := ih
+    exact ⟨ops ++ [op], by simp [run, List.foldl_append]⟩
+
+/-- The abstract ops a sequence of shell operations drawn from `A` can apply in mode `classic` when the
+machine is in state `b`.  `connected` is NOT environment here: a `setLink` may only change `heard`. -/
+def shellOk (classic : Bool) (A : SysDir.Op → Prop) (b : WS) : Op → Prop
+  | .setLink c _ => c = b.connected
+  | .resetRecovery => A .mark
+  | .resetReconnect => A .reconnect
+  | .reg3 => A .reg3
+  | .recover _ _ => A .recover
+  | .nak _ => A .nak
+  | .ackClassic _ => A .sack ∧ classic = true
+  | .ackEnhanced _ => A .sack ∧ classic = false
+  | .ackGlobal => A .gack
+
+theorem Reach.flags {classic : Bool} {A : SysDir.Op → Prop} {s a : WS}
+    (h : Reach (shellOk classic A) s a) (b : WS) (hw : b.w = a.w) (hc : b.cong = a.cong)
+    (hcn : b.connected = a.connected) : Reach (shellOk classic A) s b := by
+  have : b = applyOp a (.setLink a.connected b.heard) := by
+    cases b
+    simp only at hw hc hcn
+    subst hw hc hcn
+    rfl
+  rw [this]
+  exact .step _ h rfl
+
+theorem Reach.eqv {ok : WS → Op → Prop} {s a b : WS} (h : Reach ok s a) (e : b = a) : Reach ok s b := e ▸ h
+
+variable {F : Type} [Scalar F]
+
+/-- **Refinement, operation level**: a sequence of shell operations is, on the window view, a history of the
+abstract machine. -/
+theorem C06_refines_linkRun {now : Nat} {classic : Bool} {A : SysDir.Op → Prop} {l l' : FLink F}
+    (h : SysDir.LinkRun now classic A l l') : Reach (shellOk classic A) (proj l.core) (proj l'.core) := by
+  have neutral : ∀ {a b : FLink F}, Reach (shellOk classic A) (proj l.core) (proj a.core) → SysDir.SameW a b →
+      Reach (shellOk classic A) (proj l.core) (proj b.core) :=
+    fun hr hs => hr.flags _ hs.1 hs.2.1 hs.2.2
+  induction h with
+  | refl => exact .refl _
+  | sent _ _ ih => exact neutral ih ⟨rfl, rfl, rfl⟩
+  | heard _ _ ih => exact neutral ih ⟨rfl, rfl, rfl⟩
+  | grace _ _ ih => exact neutral ih ⟨rfl, rfl, rfl⟩
+  | probeDue _ _ ih => exact neutral ih (SysDir.sameW_probeDue _)
+  | queue pkt seq _ _ _ ih => exact neutral ih ⟨rfl, rfl, rfl⟩
+  | take _ _ ih => exact neutral ih (SysDir.sameW_take _ now)
+  | @mark a ha _ ih =>
+    have e : proj a.markForRecovery.core = applyOp (proj a.core) .resetRecovery := by
+      rw [SysDir.markForRecovery_core]
+      exact (C06_ops_are_conn_ops a.core 0 now false).2.2.2.2.2.2.1
+    rw [e]
+    exact .step _ ih ha
+  | @reconnect a ha _ ih =>
+    have e : proj (Hk.reconnectLink a now).core = applyOp (proj a.core) .resetReconnect := by
+      rw [SysDir.reconnectLink_core]
+      exact (C06_ops_are_conn_ops a.core 0 now false).2.2.2.2.2.2.2
+    rw [e]
+    exact .step _ ih ha
+  | @reg3 a ha _ ih =>
+    have e : proj (Uplink.reg3Link a now).core = applyOp (proj a.core) .reg3 := rfl
+    rw [e]
+    exact .step _ ih ha
+  | kaSend _ _ ih => exact neutral ih ⟨rfl, rfl, rfl⟩
+  | @recover a ha _ ih =>
+    obtain ⟨v, hv⟩ := SysDir.recover_core a now
+    have e : proj (a.performWindowRecovery now).core = applyOp (proj a.core) (.recover v now) := by
+      rw [hv]; rfl
+    rw [e]
+    exact .step _ ih ha
+  | tick _ _ ih => exact neutral ih (SysDir.sameW_tick _ now)
+  | kaEcho data _ _ ih => exact neutral ih (SysDir.sameW_kaEcho _ data now)
+  | srtAck x _ _ ih => exact neutral ih (SysDir.sameW_srtAck _ x now)
+  | @sack a seq ha _ ih =>
+    show Reach _ _ (proj (a.core.srtlaAck seq classic now).1)
+    cases classic
+    · rcases (C06_ops_are_conn_ops a.core seq now false).2.2.1 with e | ⟨inf, e⟩
+      · exact ih.eqv e
+      · rw [e]; exact .step _ ih ⟨ha, rfl⟩
+    · rcases (C06_ops_are_conn_ops a.core seq now false).2.1 with e | ⟨inf, e⟩
+      · exact ih.eqv e
+      · rw [e]; exact .step _ ih ⟨ha, rfl⟩
+  | @gack a ha _ ih =>
+    show Reach _ _ (proj a.core.ackGlobal)
+    rw [(C06_ops_are_conn_ops a.core 0 now false).2.2.2.1]
+    exact .step _ ih ha
+  | @nak a seq ha _ ih =>
+    show Reach _ _ (proj (a.core.nak seq now).1)
+    rcases (C06_ops_are_conn_ops a.core seq now false).1 with e | e
+    · exact ih.eqv e
+    · rw [e]; exact .step _ ih ha
+  | select x _ _ ih => exact neutral ih ⟨rfl, rfl, rfl⟩
+
+/-- **Refinement, event level** (every constructor of `Sys.Ev`, every link index): the list length is
+invariant and the window view of link `j` after the event is reached from its view before the event by a
+history of the abstract machine whose ops are all allowed by the event for that link. -/
+theorem C06_shell_refines (s : Sys.Sys F) (e : Sys.Ev) :
+    (Sys.step s e).1.links.length = s.links.length ∧
+    ∀ (j : Nat) (l : FLink F), s.links[j]? = some l →
+      ∃ l', (Sys.step s e).1.links[j]? = some l' ∧
+        Reach (shellOk s.cfg.classic (SysDir.evOps s e j)) (proj l.core) (proj l'.core) := by
+  obtain ⟨h1, h2⟩ := SysDir.step_run s e
+  refine ⟨h1, fun j l hl => ?_⟩
+  obtain ⟨l', hl', hr⟩ := h2 j l hl
+  exact ⟨l', hl', C06_refines_linkRun hr⟩
+
+/-! ## Histories of the abstract machine, classified by the ops they may contain -/
+
+section histories
+variable {classic : Bool} {A : SysDir.Op → Prop} {s a : WS}
+
+theorem ackGlobal_frame (b : WS) :
+    (applyOp b .ackGlobal).cong = b.cong ∧ (applyOp b .ackGlobal).connected = b.connected := by
+  simp only [applyOp]
+  split <;> exact ⟨rfl, rfl⟩
+
+theorem recover_off (b : WS) (v : Bool) (now : Nat) (hc : b.connected = false) : applyOp b (.recover v now) = b := by
+  cases b with
+  | mk w cong connected heard =>
+    simp only at hc
+    subst hc
+    simp only [applyOp, Hk.recover_disconnected]
+
+/-- A history without any window-changing op: only `heard` may change. -/
+theorem reach_neutral (hm : ¬ A .mark) (hrc : ¬ A .reconnect) (hr3 : ¬ A .reg3) (hrv : ¬ A .recover)
+    (hnk : ¬ A .nak) (hsk : ¬ A .sack) (hgk : ¬ A .gack) (h : Reach (shellOk classic A) s a) :
+    a.w = s.w ∧ a.cong = s.cong ∧ a.connected = s.connected := by
+  induction h with
+  | refl => exact ⟨rfl, rfl, rfl⟩
+  | step op _ hok ih =>
+    cases op with
+    | setLink c hd => exact ⟨ih.1, ih.2.1, Eq.trans hok ih.2.2⟩
+    | nak now => exact absurd hok hnk
+    | ackClassic inf => exact absurd hok.1 hsk
+    | ackEnhanced inf => exact absurd hok.1 hsk
+    | ackGlobal => exact absurd hok hgk
+    | recover v now => exact absurd hok hrv
+    | resetRecovery => exact absurd hok hm
+    | resetReconnect => exact absurd hok hrc
+    | reg3 => exact absurd hok hr3
+
+/-- A history whose only window-changing op is `mark_for_recovery`: congestion state kept; the window is
+kept, or the link was torn down (20000, not connected). -/
+theorem reach_mark_only (hrc : ¬ A .reconnect) (hr3 : ¬ A .reg3) (hrv : ¬ A .recover)
+    (hnk : ¬ A .nak) (hsk : ¬ A .sack) (hgk : ¬ A .gack) (h : Reach (shellOk classic A) s a) :
+    a.cong = s.cong ∧ ((a.w = s.w ∧ a.connected = s.connected) ∨ (a.w = 20000 ∧ a.connected = false ∧ A .mark)) := by
+  have hI := wconsts.2.2.1
+  induction h with
+  | refl => exact ⟨rfl, .inl ⟨rfl, rfl⟩⟩
+  | step op _ hok ih =>
+    cases op with
+    | setLink c hd =>
+      refine ⟨ih.1, ?_⟩
+      rcases ih.2 with h | h
+      · exact .inl ⟨h.1, Eq.trans hok h.2⟩
+      · exact .inr ⟨h.1, Eq.trans hok h.2.1, h.2.2⟩
+    | nak now => exact absurd hok hnk
+    | ackClassic inf => exact absurd hok.1 hsk
+    | ackEnhanced inf => exact absurd hok.1 hsk
+    | ackGlobal => exact absurd hok hgk
+    | recover v now => exact absurd hok hrv
+    | resetRecovery => exact ⟨ih.1, .inr ⟨hI, rfl, hok⟩⟩
+    | resetReconnect => exact absurd hok hrc
+    | reg3 => exact absurd hok hr3
+
+/-- A history whose only window-changing op is the NAK rule: the window never rises — it is the old window
+lowered by 100 per charge and floored at 1000 — and fast recovery, if it turns on, turns on at 2000 or less. -/
+theorem reach_naks_only (hm : ¬ A .mark) (hrc : ¬ A .reconnect) (hr3 : ¬ A .reg3) (hrv : ¬ A .recover)
+    (hsk : ¬ A .sack) (hgk : ¬ A .gack) (hs : InRange s.w) (h : Reach (shellOk classic A) s a) :
+    InRange a.w ∧ a.w ≤ s.w ∧ (∃ k : Nat, a.w = max (s.w - 100 * k) 1000) ∧ a.connected = s.connected ∧
+    (s.cong.fastRecovery = true → a.cong.fastRecovery = true) ∧
+    (s.cong.fastRecovery = false → a.cong.fastRecovery = true → a.w ≤ 2000) := by
+  induction h with
+  | refl =>
+    refine ⟨hs, Int.le_refl _, ⟨0, ?_⟩, rfl, id, fun h0 h1 => by rw [h0] at h1; cases h1⟩
+    have := hs.1
+    omega
+  | @step b op _ hok ih =>
+    obtain ⟨r, le, ⟨k, hk⟩, cn, f1, f2⟩ := ih
+    cases op with
+    | setLink c hd => exact ⟨r, le, ⟨k, hk⟩, Eq.trans hok cn, f1, f2⟩
+    | nak now =>
+      obtain ⟨n1, n2⟩ := C06_nak_nonincreasing b now r
+      refine ⟨C06_range_step b _ r, Int.le_trans n1 le, ⟨k + 1, ?_⟩, cn, ?_, ?_⟩
+      · rw [n2, hk]
+        have := hs.1
+        omega
+      · intro h0
+        have hb := f1 h0
+        simp [applyOp, Cong.handleNak, hb]
+      · intro h0 h1
+        by_cases hb : b.cong.fastRecovery = true
+        · exact Int.le_trans n1 (f2 h0 hb)
+        · obtain ⟨_, _, hw⟩ := C06_fast_recovery_enter b (.nak now) (by simpa using hb) h1
+          exact hw
+    | ackClassic inf => exact absurd hok.1 hsk
+    | ackEnhanced inf => exact absurd hok.1 hsk
+    | ackGlobal => exact absurd hok hgk
+    | recover v now => exact absurd hok hrv
+    | resetRecovery => exact absurd hok hm
+    | resetReconnect => exact absurd hok hrc
+    | reg3 => exact absurd hok hr3
+
+/-- A history whose only window-changing ops are the ACK rules (earned ACK, global `+1`): the window never
+falls; in classic mode the congestion state is untouched; fast recovery never turns on, and turns off only
+in enhanced mode at 12000 or more. -/
+theorem reach_acks_only (hm : ¬ A .mark) (hrc : ¬ A .reconnect) (hr3 : ¬ A .reg3) (hrv : ¬ A .recover)
+    (hnk : ¬ A .nak) (hs : InRange s.w) (h : Reach (shellOk classic A) s a) :
+    InRange a.w ∧ s.w ≤ a.w ∧ a.connected = s.connected ∧ (classic = true → a.cong = s.cong) ∧
+    (a.cong.fastRecovery = true → s.cong.fastRecovery = true) ∧
+    (s.cong.fastRecovery = true → a.cong.fastRecovery = false → classic = false ∧ 12000 ≤ a.w) := by
+  induction h with
+  | refl => exact ⟨hs, Int.le_refl _, rfl, fun _ => rfl, id, fun h0 h1 => by rw [h0] at h1; cases h1⟩
+  | @step b op _ hok ih =>
+    obtain ⟨r, le, cn, cc, f1, f2⟩ := ih
+    obtain ⟨a1, a2, a3⟩ := C06_ack_nondecreasing b 0 r
+    cases op with
+    | setLink c hd => exact ⟨r, le, Eq.trans hok cn, cc, f1, f2⟩
+    | nak now => exact absurd hok hnk
+    | ackClassic inf =>
+      have a1' := (C06_ack_nondecreasing b inf r).1
+      refine ⟨C06_range_step b _ r, Int.le_trans le a1', cn, cc, f1, ?_⟩
+      intro h0 h1
+      obtain ⟨c1, c2⟩ := f2 h0 h1
+      exact ⟨c1, Int.le_trans c2 a1'⟩
+    | ackEnhanced inf =>
+      have a2' := (C06_ack_nondecreasing b inf r).2.1
+      have ncl : ¬ classic = true := by rw [hok.2]; simp
+      refine ⟨C06_range_step b _ r, Int.le_trans le a2', cn, fun hc => absurd hc ncl, ?_, ?_⟩
+      · intro h1
+        apply f1
+        simp only [applyOp, Cong.ackEnhanced, Bool.and_eq_true] at h1
+        exact h1.1
+      · intro h0 h1
+        refine ⟨hok.2, ?_⟩
+        by_cases hb : b.cong.fastRecovery = true
+        · rcases C06_fast_recovery_leave b (.ackEnhanced inf) hb h1 with h | h | h
+          · exact h
+          · cases h
+          · cases h
+        · exact Int.le_trans (f2 h0 (by simpa using hb)).2 a2'
+    | ackGlobal =>
+      obtain ⟨g1, g2⟩ := ackGlobal_frame b
+      refine ⟨C06_range_step b _ r, Int.le_trans le a3, g2.trans cn, fun hc => g1.trans (cc hc), ?_, ?_⟩
+      · intro h1; rw [g1] at h1; exact f1 h1
+      · intro h0 h1
+        rw [g1] at h1
+        obtain ⟨c1, c2⟩ := f2 h0 h1
+        exact ⟨c1, Int.le_trans c2 a3⟩
+    | recover v now => exact absurd hok hrv
+    | resetRecovery => exact absurd hok hm
+    | resetReconnect => exact absurd hok hrc
+    | reg3 => exact absurd hok hr3
+
+/-- A history whose only window-relevant op is REG3: the window is kept; the congestion state is kept or
+cleared (then the link is connected). -/
+theorem reach_reg3_only (hm : ¬ A .mark) (hrc : ¬ A .reconnect) (hrv : ¬ A .recover)
+    (hnk : ¬ A .nak) (hsk : ¬ A .sack) (hgk : ¬ A .gack) (h : Reach (shellOk classic A) s a) :
+    a.w = s.w ∧ ((a.cong = s.cong ∧ a.connected = s.connected) ∨ (a.cong = {} ∧ a.connected = true ∧ A .reg3)) := by
+  induction h with
+  | refl => exact ⟨rfl, .inl ⟨rfl, rfl⟩⟩
+  | step op _ hok ih =>
+    cases op with
+    | setLink c hd =>
+      refine ⟨ih.1, ?_⟩
+      rcases ih.2 with h | h
+      · exact .inl ⟨h.1, Eq.trans hok h.2⟩
+      · exact .inr ⟨h.1, Eq.trans hok h.2.1, h.2.2⟩
+    | nak now => exact absurd hok hnk
+    | ackClassic inf => exact absurd hok.1 hsk
+    | ackEnhanced inf => exact absurd hok.1 hsk
+    | ackGlobal => exact absurd hok hgk
+    | recover v now => exact absurd hok hrv
+    | resetRecovery => exact absurd hok hm
+    | resetReconnect => exact absurd hok hrc
+    | reg3 => exact ⟨ih.1, .inr ⟨rfl, rfl, hok⟩⟩
+
+/-- A housekeeping history (`reset_for_reconnect`, and the time-based recovery only if NOT classic): the link
+was torn down (20000, congestion state cleared, not connected), or its window did not fall — in classic mode
+window and congestion state are untouched — fast recovery did not turn on, and turned off only at 12000 or more. -/
+theorem reach_hk (hm : ¬ A .mark) (hr3 : ¬ A .reg3) (hnk : ¬ A .nak) (hsk : ¬ A .sack) (hgk : ¬ A .gack)
+    (hrvc : A .recover → classic = false) (hs : InRange s.w) (h : Reach (shellOk classic A) s a) :
+    (a.w = 20000 ∧ a.cong = {} ∧ a.connected = false ∧ A .reconnect) ∨
+    (InRange a.w ∧ s.w ≤ a.w ∧ a.connected = s.connected ∧ (classic = true → a.w = s.w ∧ a.cong = s.cong) ∧
+      (a.cong.fastRecovery = true → s.cong.fastRecovery = true) ∧
+      (s.cong.fastRecovery = true → a.cong.fastRecovery = false → 12000 ≤ a.w)) := by
+  have hI := wconsts.2.2.1
+  induction h with
+  | refl => exact .inr ⟨hs, Int.le_refl _, rfl, fun _ => ⟨rfl, rfl⟩, id, fun h0 h1 => by rw [h0] at h1; cases h1⟩
+  | @step b op _ hok ih =>
+    cases op with
+    | setLink c hd =>
+      rcases ih with h | ⟨r, le, cn, cc, f1, f2⟩
+      · exact .inl ⟨h.1, h.2.1, Eq.trans hok h.2.2.1, h.2.2.2⟩
+      · exact .inr ⟨r, le, Eq.trans hok cn, cc, f1, f2⟩
+    | nak now => exact absurd hok hnk
+    | ackClassic inf => exact absurd hok.1 hsk
+    | ackEnhanced inf => exact absurd hok.1 hsk
+    | ackGlobal => exact absurd hok hgk
+    | recover v now =>
+      rcases ih with h | ⟨r, le, cn, cc, f1, f2⟩
+      · rw [recover_off b v now h.2.2.1]; exact .inl h
+      · have hcl := hrvc hok
+        have hge := C06_recovery_nondecreasing b v now r
+        have ncl : ¬ classic = true := by rw [hcl]; simp
+        refine .inr ⟨C06_range_step b _ r, Int.le_trans le hge, cn, fun hc => absurd hc ncl, ?_, ?_⟩
+        · intro h1
+          by_cases hb : b.cong.fastRecovery = true
+          · exact f1 hb
+          · obtain ⟨_, hop, _⟩ := C06_fast_recovery_enter b (.recover v now) (by simpa using hb) h1
+            cases hop
+        · intro h0 h1
+          by_cases hb : b.cong.fastRecovery = true
+          · rcases C06_fast_recovery_leave b (.recover v now) hb h1 with h | h | h
+            · exact h
+            · cases h
+            · cases h
+          · exact Int.le_trans (f2 h0 (by simpa using hb)) hge
+    | resetRecovery => exact absurd hok hm
+    | resetReconnect => exact .inl ⟨hI, rfl, rfl, hok⟩
+    | reg3 => exact absurd hok hr3
+
+end histories
+
+/-! ## (a) Direction of every window change, per event constructor -/
+
+section direction
+variable {F : Type} [Scalar F]
+
+/-- Every link's window is in `[1000, 60000]` — the invariant `Props/SysLevel.lean` proves along every run
+(`C06_range_sys`). -/
+def RangeInv (s : Sys.Sys F) : Prop := ∀ l ∈ s.links, InRange l.core.window
+
+theorem refines_at (s : Sys.Sys F) (e : Sys.Ev) (j : Nat) (l l' : FLink F) (hl : s.links[j]? = some l)
+    (hl' : (Sys.step s e).1.links[j]? = some l') :
+    Reach (shellOk s.cfg.classic (SysDir.evOps s e j)) (proj l.core) (proj l'.core) := by
+  obtain ⟨l'', h1, h2⟩ := (C06_shell_refines s e).2 j l hl
+  rw [hl'] at h1
+  cases h1
+  exact h2
+
+/-- **Client datagram** (`handle_srt_packet`): no link's congestion state changes; a window changes only if the
+link is torn down after a failed send (`mark_for_recovery`: 20000, not connected). -/
+theorem C06_direction_client (s : Sys.Sys F) (now : Nat) (pkt : Sys.Bytes) (j : Nat) (l l' : FLink F)
+    (hl : s.links[j]? = some l) (hl' : (Sys.step s (.client now pkt)).1.links[j]? = some l') :
+    l'.core.cong = l.core.cong ∧
+    ((l'.core.window = l.core.window ∧ l'.core.connected = l.core.connected) ∨
+     (l'.core.window = 20000 ∧ l'.core.connected = false)) := by
+  have h := refines_at s _ j l l' hl hl'
+  have hn : ∀ op, op = SysDir.Op.reconnect ∨ op = .reg3 ∨ op = .recover ∨ op = .nak ∨ op = .sack ∨ op = .gack →
+      ¬ SysDir.evOps s (.client now pkt) j op := by
+    intro op hop hA
+    have hA' : SysDir.clientOps op := hA
+    unfold SysDir.clientOps at hA'
+    rcases hop with rfl | rfl | rfl | rfl | rfl | rfl <;> rcases hA' with h | h | h | h | h <;> cases h
+  obtain ⟨h1, h2⟩ := reach_mark_only (hn _ (.inl rfl)) (hn _ (.inr (.inl rfl))) (hn _ (.inr (.inr (.inl rfl))))
+    (hn _ (.inr (.inr (.inr (.inl rfl))))) (hn _ (.inr (.inr (.inr (.inr (.inl rfl))))))
+    (hn _ (.inr (.inr (.inr (.inr (.inr rfl)))))) h
+  refine ⟨h1, ?_⟩
+  rcases h2 with h | h
+  · exact .inl h
+  · exact .inr ⟨h.1, h.2.1⟩
+
+/-- **Periodic flush** (`flush_all_batches`): window, congestion state and `connected` of every link untouched
+(a failed periodic flush only warns). -/
+theorem C06_direction_flush (s : Sys.Sys F) (now : Nat) (j : Nat) (l l' : FLink F)
+    (hl : s.links[j]? = some l) (hl' : (Sys.step s (.flush now)).1.links[j]? = some l') :
+    l'.core.window = l.core.window ∧ l'.core.cong = l.core.cong ∧ l'.core.connected = l.core.connected := by
+  have h := refines_at s _ j l l' hl hl'
+  have hn : ∀ op, op ≠ SysDir.Op.take → ¬ SysDir.evOps s (.flush now) j op := fun op hop hA => hop hA
+  exact reach_neutral (hn _ (by decide)) (hn _ (by decide)) (hn _ (by decide)) (hn _ (by decide))
+    (hn _ (by decide)) (hn _ (by decide)) (hn _ (by decide)) h
+
+/-- **Configuration events** (`setCfg`, `crit`, `failNext`): the links are not touched at all. -/
+theorem C06_direction_config (s : Sys.Sys F) (cfg : Select.Cfg) (d cid : Nat) :
+    (Sys.step s (.setCfg cfg)).1.links = s.links ∧ (Sys.step s (.crit d)).1.links = s.links ∧
+    (Sys.step s (.failNext cid)).1.links = s.links := ⟨rfl, rfl, rfl⟩
+
+theorem upA (data : Sys.Bytes) (pt : Nat) (arr : Bool) (op : SysDir.Op) (hpt : Codec.getPacketTypeS data = some pt) :
+    (∃ pt', Codec.getPacketTypeS data = some pt' ∧ SysDir.upOps pt' arr op) ↔ SysDir.upOps pt arr op := by
+  constructor
+  · rintro ⟨pt', h1, h2⟩
+    rw [hpt] at h1
+    cases h1
+    exact h2
+  · exact fun h => ⟨pt, hpt, h⟩
+
+theorem upOps_spec (pt : Nat) (arr : Bool) :
+    (SysDir.upOps pt arr .mark ↔ arr = true ∧ pt = 0x9210) ∧ ¬ SysDir.upOps pt arr .reconnect ∧
+    (SysDir.upOps pt arr .reg3 ↔ arr = true ∧ pt = 0x9202) ∧ ¬ SysDir.upOps pt arr .recover ∧
+    (SysDir.upOps pt arr .nak ↔ pt = 0x8003) ∧ (SysDir.upOps pt arr .sack ↔ pt = 0x9100) ∧
+    (SysDir.upOps pt arr .gack ↔ pt = 0x9100) := by
+  simp [SysDir.upOps, SysDir.fanOps, SysDir.arrOps]
+
+/-- **Uplink datagram** (`handle_uplink_packet`), by its type code `pt`, for EVERY link `j`:
+
+* too short to carry a type code: nothing changes;
+* SRT NAK (0x8003): no window rises — each is the old window lowered by 100 per charge and floored at 1000;
+  fast recovery stays on if it was on, and turns on only at a window of 2000 or less;
+* SRTLA ACK (0x9100): no window falls (and none leaves `[1000, 60000]`); in classic mode no congestion state
+  changes; fast recovery never turns on and turns off only in enhanced mode at 12000 or more;
+* REG_ERR (0x9210): congestion state kept everywhere; a window changes only on the ARRIVAL link, to 20000
+  (`mark_for_recovery`, not connected);
+* REG3 (0x9202): every window kept; the arrival link's congestion state is cleared and it is connected;
+* any other type (SRT ACK, keepalive, REG_NGP, REG2, data, unknown): window, congestion state and `connected`
+  of every link untouched. -/
+theorem C06_direction_uplink (s : Sys.Sys F) (now cid : Nat) (data : Sys.Bytes) (hr : RangeInv s) (j : Nat)
+    (l l' : FLink F) (hl : s.links[j]? = some l) (hl' : (Sys.step s (.uplink now cid data)).1.links[j]? = some l') :
+    (Codec.getPacketTypeS data = none → l' = l) ∧
+    ∀ pt, Codec.getPacketTypeS data = some pt →
+      (pt = 0x8003 →
+        l'.core.window ≤ l.core.window ∧ (∃ k : Nat, l'.core.window = max (l.core.window - 100 * k) 1000) ∧
+        l'.core.connected = l.core.connected ∧
+        (l.core.cong.fastRecovery = true → l'.core.cong.fastRecovery = true) ∧
+        (l.core.cong.fastRecovery = false → l'.core.cong.fastRecovery = true → l'.core.window ≤ 2000)) ∧
+      (pt = 0x9100 →
+        l.core.window ≤ l'.core.window ∧ l'.core.window ≤ 60000 ∧ l'.core.connected = l.core.connected ∧
+        (s.cfg.classic = true → l'.core.cong = l.core.cong) ∧
+        (l'.core.cong.fastRecovery = true → l.core.cong.fastRecovery = true) ∧
+        (l.core.cong.fastRecovery = true → l'.core.cong.fastRecovery = false →
+          s.cfg.classic = false ∧ 12000 ≤ l'.core.window)) ∧
+      (pt = 0x9210 →
+        l'.core.cong = l.core.cong ∧
+        ((l'.core.window = l.core.window ∧ l'.core.connected = l.core.connected) ∨
+         (l'.core.window = 20000 ∧ l'.core.connected = false ∧
+            s.links.findIdx? (·.core.connId == cid) = some j))) ∧
+      (pt = 0x9202 →
+        l'.core.window = l.core.window ∧
+        ((l'.core.cong = l.core.cong ∧ l'.core.connected = l.core.connected) ∨
+         (l'.core.cong = {} ∧ l'.core.connected = true ∧ s.links.findIdx? (·.core.connId == cid) = some j))) ∧
+      (pt ≠ 0x8003 → pt ≠ 0x9100 → pt ≠ 0x9210 → pt ≠ 0x9202 →
+        l'.core.window = l.core.window ∧ l'.core.cong = l.core.cong ∧ l'.core.connected = l.core.connected) := by
+  have hrun := (SysDir.step_run s (.uplink now cid data)).2 j l hl
+  obtain ⟨l'', h1, hrun⟩ := hrun
+  rw [hl'] at h1
+  cases h1
+  have h := refines_at s _ j l l' hl hl'
+  have hin : InRange l.core.window := hr l (List.mem_of_getElem? hl)
+  constructor
+  · intro hnone
+    apply hrun.eq_of_none
+    rintro op ⟨pt, hpt, -⟩
+    rw [hnone] at hpt
+    cases hpt
+  intro pt hpt
+  obtain ⟨sm, src, sr3, srv, snk, ssk, sgk⟩ :=
+    upOps_spec pt (s.links.findIdx? (·.core.connId == cid) == some j)
+  have hA : ∀ op, SysDir.evOps s (.uplink now cid data) j op ↔
+      SysDir.upOps pt (s.links.findIdx? (·.core.connId == cid) == some j) op := fun op => upA data pt _ op hpt
+  have nrc : ¬ SysDir.evOps s (.uplink now cid data) j .reconnect := fun h => src ((hA _).1 h)
+  have nrv : ¬ SysDir.evOps s (.uplink now cid data) j .recover := fun h => srv ((hA _).1 h)
+  have arr : ∀ {p : Prop}, ((s.links.findIdx? (·.core.connId == cid) == some j) = true ∧ p) →
+      s.links.findIdx? (·.core.connId == cid) = some j := fun h => by simpa using h.1
+  refine ⟨?_, ?_, ?_, ?_, ?_⟩
+  · intro hp
+    obtain ⟨-, a2, a3, a4, a5, a6⟩ := reach_naks_only
+      (fun h => by have := (sm.1 ((hA _).1 h)).2; omega) nrc
+      (fun h => by have := (sr3.1 ((hA _).1 h)).2; omega) nrv
+      (fun h => by have := ssk.1 ((hA _).1 h); omega) (fun h => by have := sgk.1 ((hA _).1 h); omega) hin h
+    exact ⟨a2, a3, a4, a5, a6⟩
+  · intro hp
+    obtain ⟨a1, a2, a3, a4, a5, a6⟩ := reach_acks_only
+      (fun h => by have := (sm.1 ((hA _).1 h)).2; omega) nrc
+      (fun h => by have := (sr3.1 ((hA _).1 h)).2; omega) nrv
+      (fun h => by have := snk.1 ((hA _).1 h); omega) hin h
+    exact ⟨a2, a1.2, a3, a4, a5, a6⟩
+  · intro hp
+    obtain ⟨a1, a2⟩ := reach_mark_only nrc
+      (fun h => by have := (sr3.1 ((hA _).1 h)).2; omega) nrv
+      (fun h => by have := snk.1 ((hA _).1 h); omega) (fun h => by have := ssk.1 ((hA _).1 h); omega)
+      (fun h => by have := sgk.1 ((hA _).1 h); omega) h
+    refine ⟨a1, ?_⟩
+    rcases a2 with a | a
+    · exact .inl a
+    · exact .inr ⟨a.1, a.2.1, arr (sm.1 ((hA _).1 a.2.2))⟩
+  · intro hp
+    obtain ⟨a1, a2⟩ := reach_reg3_only
+      (fun h => by have := (sm.1 ((hA _).1 h)).2; omega) nrc nrv
+      (fun h => by have := snk.1 ((hA _).1 h); omega) (fun h => by have := ssk.1 ((hA _).1 h); omega)
+      (fun h => by have := sgk.1 ((hA _).1 h); omega) h
+    refine ⟨a1, ?_⟩
+    rcases a2 with a | a
+    · exact .inl a
+    · exact .inr ⟨a.1, a.2.1, arr (sr3.1 ((hA _).1 a.2.2))⟩
+  · intro p1 p2 p3 p4
+    exact reach_neutral
+      (fun h => p3 (sm.1 ((hA _).1 h)).2) nrc (fun h => p4 (sr3.1 ((hA _).1 h)).2) nrv
+      (fun h => p1 (snk.1 ((hA _).1 h))) (fun h => p2 (ssk.1 ((hA _).1 h))) (fun h => p2 (sgk.1 ((hA _).1 h))) h
+
+/-- **Housekeeping tick** (`handle_housekeeping`): a link is torn down for reconnect (20000, congestion state
+cleared, not connected), or its window does not fall and stays in `[1000, 60000]` — and in CLASSIC mode its
+window and congestion state are untouched (no time-based recovery) — fast recovery does not turn on, and turns
+off only at 12000 or more. -/
+theorem C06_direction_hk (s : Sys.Sys F) (now : Nat) (hr : RangeInv s) (j : Nat) (l l' : FLink F)
+    (hl : s.links[j]? = some l) (hl' : (Sys.step s (.hk now)).1.links[j]? = some l') :
+    (l'.core.window = 20000 ∧ l'.core.cong = {} ∧ l'.core.connected = false) ∨
+    (1000 ≤ l'.core.window ∧ l'.core.window ≤ 60000 ∧ l.core.window ≤ l'.core.window ∧
+      l'.core.connected = l.core.connected ∧
+      (s.cfg.classic = true → l'.core.window = l.core.window ∧ l'.core.cong = l.core.cong) ∧
+      (l'.core.cong.fastRecovery = true → l.core.cong.fastRecovery = true) ∧
+      (l.core.cong.fastRecovery = true → l'.core.cong.fastRecovery = false → 12000 ≤ l'.core.window)) := by
+  have h := refines_at s _ j l l' hl hl'
+  have hin : InRange l.core.window := hr l (List.mem_of_getElem? hl)
+  have hn : ∀ op, op = SysDir.Op.mark ∨ op = .reg3 ∨ op = .nak ∨ op = .sack ∨ op = .gack →
+      ¬ SysDir.evOps s (.hk now) j op := by
+    intro op hop hA
+    have hA' : SysDir.hkOps s.cfg.classic op := hA
+    unfold SysDir.hkOps at hA'
+    rcases hop with rfl | rfl | rfl | rfl | rfl <;> rcases hA' with h | h | h | h | h | ⟨h, -⟩ <;> cases h
+  have hrv : SysDir.evOps s (.hk now) j .recover → s.cfg.classic = false := by
+    intro hA
+    have hA' : SysDir.hkOps s.cfg.classic .recover := hA
+    unfold SysDir.hkOps at hA'
+    rcases hA' with h | h | h | h | h | ⟨-, h⟩
+    · cases h
+    · cases h
+    · cases h
+    · cases h
+    · cases h
+    · exact h
+  rcases reach_hk (hn _ (.inl rfl)) (hn _ (.inr (.inl rfl))) (hn _ (.inr (.inr (.inl rfl))))
+    (hn _ (.inr (.inr (.inr (.inl rfl))))) (hn _ (.inr (.inr (.inr (.inr rfl))))) hrv hin h with a | a
+  · exact .inl ⟨a.1, a.2.1, a.2.2.1⟩
+  · exact .inr ⟨a.1.1, a.1.2, a.2⟩
+
+/-- **(a) Direction, every event constructor, every link** (the summary; the per-arm theorems above say more):
+a client datagram, a flush and the configuration events never change a window except by the tear-down after a
+failed send (20000); an uplink datagram that is not an SRTLA ACK (0x9100) and not REG_ERR (0x9210) never
+increases a window, one that is not an SRT NAK (0x8003) and not REG_ERR never decreases one, REG_ERR leaves
+every window or resets it to 20000; housekeeping never decreases a window except by tear-down to 20000, and in
+classic mode leaves every window that is not torn down unchanged. -/
+theorem C06_direction_sys (s : Sys.Sys F) (e : Sys.Ev) (hr : RangeInv s) (j : Nat) (l l' : FLink F)
+    (hl : s.links[j]? = some l) (hl' : (Sys.step s e).1.links[j]? = some l') :
+    match (generalizing := false) e with
+    | .client _ _ => l'.core.cong = l.core.cong ∧ (l'.core.window = l.core.window ∨ l'.core.window = 20000)
+    | .flush _ => l'.core.window = l.core.window ∧ l'.core.cong = l.core.cong
+    | .setCfg _ => l' = l
+    | .crit _ => l' = l
+    | .failNext _ => l' = l
+    | .uplink _ _ data =>
+        (Codec.getPacketTypeS data = none → l' = l) ∧
+        ∀ pt, Codec.getPacketTypeS data = some pt →
+          (pt ≠ 0x9100 → pt ≠ 0x9210 → l'.core.window ≤ l.core.window) ∧
+          (pt ≠ 0x8003 → pt ≠ 0x9210 → l.core.window ≤ l'.core.window) ∧
+          (pt = 0x9210 → l'.core.window = l.core.window ∨ l'.core.window = 20000)
+    | .hk _ =>
+        l'.core.window = 20000 ∨
+        (l.core.window ≤ l'.core.window ∧ (s.cfg.classic = true → l'.core.window = l.core.window)) := by
+  cases e with
+  | client now pkt =>
+    obtain ⟨h1, h2⟩ := C06_direction_client s now pkt j l l' hl hl'
+    exact ⟨h1, h2.elim (fun h => .inl h.1) (fun h => .inr h.1)⟩
+  | flush now =>
+    obtain ⟨h1, h2, -⟩ := C06_direction_flush s now j l l' hl hl'
+    exact ⟨h1, h2⟩
+  | setCfg cfg => rw [show (Sys.step s (.setCfg cfg)).1.links = s.links from rfl, hl] at hl'; exact (Option.some.inj hl').symm
+  | crit d => rw [show (Sys.step s (.crit d)).1.links = s.links from rfl, hl] at hl'; exact (Option.some.inj hl').symm
+  | failNext cid => rw [show (Sys.step s (.failNext cid)).1.links = s.links from rfl, hl] at hl'; exact (Option.some.inj hl').symm
+  | uplink now cid data =>
+    obtain ⟨h0, h⟩ := C06_direction_uplink s now cid data hr j l l' hl hl'
+    refine ⟨h0, fun pt hpt => ?_⟩
+    obtain ⟨hnak, hack, herr, hreg3, hoth⟩ := h pt hpt
+    refine ⟨fun p1 p2 => ?_, fun p1 p2 => ?_, fun p => (herr p).2.elim (fun h => .inl h.1) (fun h => .inr h.1)⟩
+    · by_cases q1 : pt = 0x8003
+      · exact (hnak q1).1
+      · by_cases q2 : pt = 0x9202
+        · exact Int.le_of_eq (hreg3 q2).1
+        · exact Int.le_of_eq (hoth q1 p1 p2 q2).1
+    · by_cases q1 : pt = 0x9100
+      · exact (hack q1).1
+      · by_cases q2 : pt = 0x9202
+        · exact Int.le_of_eq (hreg3 q2).1.symm
+        · exact Int.le_of_eq (hoth p1 q1 p2 q2).1.symm
+  | hk now =>
+    rcases C06_direction_hk s now hr j l l' hl hl' with h | h
+    · exact .inl h.1
+    · exact .inr ⟨h.2.2.1, fun hc => (h.2.2.2.2.1 hc).1⟩
+
+end direction
+
+/-! ## (b) Tear-downs -/
+
+section reset
+variable {F : Type} [Scalar F]
+
+/-- **What each reset does to window and congestion state** (the functions the shell calls): a fresh link
+(`new_registering`) starts at 20000 with fast recovery off; `mark_for_recovery` (failed send, REG_ERR) sets the
+window to 20000 and KEEPS the congestion state — including the fast-recovery flag ("soft reset: preserves
+congestion stats"); `reset_for_reconnect` (housekeeping's reconnect) sets 20000 and clears the congestion
+state; REG3's `clear_pre_registration_state` KEEPS the window and clears the congestion state. -/
+theorem C06_reset_ops (l : FLink F) (now id t : Nat) :
+    (FLink.newRegistering id t : FLink F).core.window = 20000 ∧
+    (FLink.newRegistering id t : FLink F).core.cong.fastRecovery = false ∧
+    l.markForRecovery.core.window = 20000 ∧ l.markForRecovery.core.cong = l.core.cong ∧
+    (l.resetForReconnect now).core.window = 20000 ∧ (l.resetForReconnect now).core.cong = {} ∧
+    (Hk.reconnectLink l now).core.window = 20000 ∧ (Hk.reconnectLink l now).core.cong = {} ∧
+    (l.clearPreRegistration now).core.window = l.core.window ∧ (l.clearPreRegistration now).core.cong = {} ∧
+    (Uplink.reg3Link l now).core.window = l.core.window ∧ (Uplink.reg3Link l now).core.cong = {} := by
+  have hI := wconsts.2.2.1
+  refine ⟨hI, rfl, hI, rfl, hI, rfl, ?_, ?_, rfl, rfl, rfl, rfl⟩
+  · rw [SysDir.reconnectLink_core]; exact hI
+  · rw [SysDir.reconnectLink_core]; rfl
+
+/-- **(b) Every tear-down anywhere in `Sys.step`**, for every event constructor and every link `j`.  Exactly
+one of four things happens to the link:
+
+1. it is not torn down: `connected` and "is registering" are what they were;
+2. `mark_for_recovery` — a failed threshold send while handling a client datagram, or REG_ERR arriving on this
+   link: window 20000, nothing logged / in flight / queued, not connected, registering; the congestion state
+   (fast-recovery flag included) is KEPT;
+3. housekeeping's reconnect of a timed-out link that is due: the same clean state, congestion state CLEARED
+   (fast recovery off);
+4. REG3 arriving on this link: window KEPT, congestion state cleared (fast recovery off), connected. -/
+theorem C06_reset_sys (s : Sys.Sys F) (e : Sys.Ev) (j : Nat) (l l' : FLink F)
+    (hl : s.links[j]? = some l) (hl' : (Sys.step s e).1.links[j]? = some l') :
+    (l'.core.connected = l.core.connected ∧ (l'.core.phase = .registering ↔ l.core.phase = .registering)) ∨
+    (l'.core.window = 20000 ∧ l'.core.connected = false ∧ l'.core.phase = .registering ∧ l'.core.log = [] ∧
+      l'.core.inFlight = 0 ∧ l'.queue = [] ∧
+      ((l'.core.cong = l.core.cong ∧
+          ((∃ now pkt, e = .client now pkt) ∨
+           (∃ now cid data, e = .uplink now cid data ∧ s.links.findIdx? (·.core.connId == cid) = some j ∧
+              l' = l.markForRecovery))) ∨
+       (l'.core.cong = {} ∧ ∃ now, e = .hk now ∧ l.isTimedOut now = true ∧ l.shouldAttemptReconnect now = true))) ∨
+    (∃ now cid data, e = .uplink now cid data ∧ s.links.findIdx? (·.core.connId == cid) = some j ∧
+      l' = Uplink.reg3Link l now ∧ l'.core.window = l.core.window ∧ l'.core.cong = {} ∧ l'.core.connected = true) := by
+  obtain ⟨l'', h1, hs⟩ := (Hk.step_link s e).1 j l hl
+  rw [hl'] at h1
+  cases h1
+  cases hs with
+  | evolves cto hcto h => exact .inl ⟨h.connected, h.phaseReg⟩
+  | sendFail now pkt he h hcons =>
+    subst he
+    have hc := (C06_direction_client s now pkt j l l' hl hl').1
+    exact .inr (.inl ⟨h.clean.window, h.clean.connected, h.phase, h.clean.log, h.clean.inFlight, h.clean.queue,
+      .inl ⟨hc, .inl ⟨now, pkt, rfl⟩⟩⟩)
+  | reg3 now cid data he hidx hev hl3 hhc =>
+    subst he
+    have e3 : l' = Uplink.reg3Link l now := hl3
+    exact .inr (.inr ⟨now, cid, data, rfl, hidx, e3, by rw [e3]; rfl, by rw [e3]; rfl, by rw [e3]; rfl⟩)
+  | regErr now cid data he hidx hev hlE =>
+    subst he
+    have hcl := Hk.clean_markForRecovery l
+    rw [← hlE] at hcl
+    exact .inr (.inl ⟨hcl.window, hcl.connected, by rw [hlE]; rfl, hcl.log, hcl.inFlight, hcl.queue,
+      .inl ⟨by rw [hlE]; rfl, .inr ⟨now, cid, data, rfl, hidx, hlE⟩⟩⟩)
+  | attempt now he hto hsa hla =>
+    subst he
+    obtain ⟨t, ht⟩ := hla
+    obtain ⟨-, -, -, -, -, f6, -, f8, -, f10⟩ := Hk.reconnectLink_fields l now
+    have w : l'.core.window = 20000 := by rw [ht]; exact f10.window
+    have cn : l'.core.connected = false := by rw [ht]; exact f10.connected
+    have ph : l'.core.phase = .registering := by rw [ht]; exact f6
+    have lg : l'.core.log = [] := by rw [ht]; exact f10.log
+    have inf : l'.core.inFlight = 0 := by rw [ht]; exact f10.inFlight
+    have q : l'.queue = [] := by rw [ht]; exact f10.queue
+    have cg : l'.core.cong = {} := by rw [ht]; exact f8
+    exact .inr (.inl ⟨w, cn, ph, lg, inf, q, .inr ⟨cg, now, rfl, hto, hsa⟩⟩)
+
+end reset
+
+/-! ## (c) Fast recovery -/
+
+section fastrecovery
+variable {F : Type} [Scalar F]
+
+/-- **(c) Fast recovery, per event, every constructor, every link**: the flag turns ON only in an uplink event
+carrying an SRT NAK (type 0x8003) that left this link's window at 2000 or less (and not above what it was);
+it turns OFF only at a window of 12000 or more — in an uplink event carrying an SRTLA ACK (0x9100) in enhanced
+mode, or in a housekeeping tick (time-based recovery in enhanced mode, or the reconnect reset to 20000) — or by
+REG3 (0x9202) arriving on this link (`clear_pre_registration_state`).  `mark_for_recovery` (failed send,
+REG_ERR) does NOT clear it. -/
+theorem C06_fast_recovery_sys (s : Sys.Sys F) (e : Sys.Ev) (hr : RangeInv s) (j : Nat) (l l' : FLink F)
+    (hl : s.links[j]? = some l) (hl' : (Sys.step s e).1.links[j]? = some l') :
+    (l.core.cong.fastRecovery = false → l'.core.cong.fastRecovery = true →
+      ∃ now cid data, e = .uplink now cid data ∧ Codec.getPacketTypeS data = some 0x8003 ∧
+        l'.core.window ≤ 2000 ∧ l'.core.window ≤ l.core.window) ∧
+    (l.core.cong.fastRecovery = true → l'.core.cong.fastRecovery = false →
+      (12000 ≤ l'.core.window ∧
+        ((∃ now cid data, e = .uplink now cid data ∧ Codec.getPacketTypeS data = some 0x9100 ∧
+            s.cfg.classic = false) ∨
+         (∃ now, e = .hk now))) ∨
+      (∃ now cid data, e = .uplink now cid data ∧ Codec.getPacketTypeS data = some 0x9202 ∧
+        s.links.findIdx? (·.core.connId == cid) = some j ∧ l'.core.cong = {})) := by
+  have same : l'.core.cong = l.core.cong → ∀ {p q : Prop},
+      (l.core.cong.fastRecovery = false → l'.core.cong.fastRecovery = true → p) ∧
+      (l.core.cong.fastRecovery = true → l'.core.cong.fastRecovery = false → q) := by
+    intro hc p q
+    rw [hc]
+    exact ⟨fun h0 h1 => (by rw [h0] at h1; cases h1), fun h0 h1 => (by rw [h0] at h1; cases h1)⟩
+  cases e with
+  | client now pkt => exact same (C06_direction_client s now pkt j l l' hl hl').1
+  | flush now => exact same (C06_direction_flush s now j l l' hl hl').2.1
+  | setCfg cfg =>
+    rw [show (Sys.step s (.setCfg cfg)).1.links = s.links from rfl, hl] at hl'
+    have e' : l'.core.cong = l.core.cong := by rw [Option.some.inj hl']
+    exact same e'
+  | crit d =>
+    rw [show (Sys.step s (.crit d)).1.links = s.links from rfl, hl] at hl'
+    have e' : l'.core.cong = l.core.cong := by rw [Option.some.inj hl']
+    exact same e'
+  | failNext cid =>
+    rw [show (Sys.step s (.failNext cid)).1.links = s.links from rfl, hl] at hl'
+    have e' : l'.core.cong = l.core.cong := by rw [Option.some.inj hl']
+    exact same e'
+  | uplink now cid data =>
+    obtain ⟨h0, h⟩ := C06_direction_uplink s now cid data hr j l l' hl hl'
+    cases hpt : Codec.getPacketTypeS data with
+    | none =>
+      have e' : l'.core.cong = l.core.cong := by rw [h0 hpt]
+      exact same e'
+    | some pt =>
+      obtain ⟨hnak, hack, herr, hreg3, hoth⟩ := h pt hpt
+      by_cases q1 : pt = 0x8003
+      · obtain ⟨a1, -, -, a4, a5⟩ := hnak q1
+        subst q1
+        refine ⟨fun f0 f1 => ⟨now, cid, data, rfl, hpt, a5 f0 f1, a1⟩, fun f0 f1 => ?_⟩
+        rw [a4 f0] at f1; cases f1
+      by_cases q2 : pt = 0x9100
+      · obtain ⟨-, -, -, -, a5, a6⟩ := hack q2
+        subst q2
+        refine ⟨fun f0 f1 => ?_, fun f0 f1 => ?_⟩
+        · rw [a5 f1] at f0; cases f0
+        · obtain ⟨c1, c2⟩ := a6 f0 f1
+          exact .inl ⟨c2, .inl ⟨now, cid, data, rfl, hpt, c1⟩⟩
+      by_cases q3 : pt = 0x9210
+      · exact same (herr q3).1
+      by_cases q4 : pt = 0x9202
+      · subst q4
+        rcases (hreg3 rfl).2 with a | a
+        · exact same a.1
+        · refine ⟨fun f0 f1 => ?_, fun f0 f1 => .inr ⟨now, cid, data, rfl, hpt, a.2.2, a.1⟩⟩
+          rw [a.1] at f1; cases f1
+      · exact same (hoth q1 q2 q3 q4).2.1
+  | hk now =>
+    rcases C06_direction_hk s now hr j l l' hl hl' with a | a
+    · have hI : (12000 : Int) ≤ l'.core.window := by rw [a.1]; decide
+      refine ⟨fun f0 f1 => ?_, fun f0 f1 => .inl ⟨hI, .inr ⟨now, rfl⟩⟩⟩
+      rw [a.2.1] at f1; cases f1
+    · obtain ⟨-, -, -, -, -, a6, a7⟩ := a
+      refine ⟨fun f0 f1 => ?_, fun f0 f1 => .inl ⟨a7 f0 f1, .inr ⟨now, rfl⟩⟩⟩
+      rw [a6 f1] at f0; cases f0
+
+/-- The accounting invariant of `Props/SysLevel.lean` (`SysInv`, stated there with the same literal body)
+gives the window range in every state a run reaches. -/
+theorem rangeInv_run (s : Sys.Sys F) (evs : List Sys.Ev)
+    (h : ∀ l ∈ s.links, LogInv l.core ∧ 1000 ≤ l.core.window ∧ l.core.window ≤ 60000 ∧ 0 ≤ l.core.inFlight ∧
+      ∀ it ∈ l.queue, ∀ sq, it.2.1 = some sq → sq < 2147483648) : RangeInv (Sys.run s evs).1 := by
+  have h0 : SysInv.All SysInv.LinkInv s.links := by
+    intro l hl
+    obtain ⟨a, b, c, d, f⟩ := h l hl
+    exact ⟨a, b, c, d, f⟩
+  intro l hl
+  have := SysDir.linkInv_run s evs h0 l hl
+  exact ⟨this.wlo, this.whi⟩
+
+theorem run_snoc (s : Sys.Sys F) (pre : List Sys.Ev) (e : Sys.Ev) :
+    (Sys.run s (pre ++ [e])).1 = (Sys.step (Sys.run s pre).1 e).1 := by
+  rw [SysDir.run_append]; rfl
+
+/-- **(c) along any run**: for every run `pre ++ [e]` of the shell from an invariant state (in particular the
+initial state), the last event `e` changes the fast-recovery flag of link `j` only as `C06_fast_recovery_sys`
+says — ON only by a NAK datagram that left the window at 2000 or less, OFF only at 12000 or more (SRTLA ACK in
+enhanced mode, housekeeping) or by REG3 on that link. -/
+theorem C06_fast_recovery_run (s : Sys.Sys F) (pre : List Sys.Ev) (e : Sys.Ev)
+    (h : ∀ l ∈ s.links, LogInv l.core ∧ 1000 ≤ l.core.window ∧ l.core.window ≤ 60000 ∧ 0 ≤ l.core.inFlight ∧
+      ∀ it ∈ l.queue, ∀ sq, it.2.1 = some sq → sq < 2147483648)
+    (j : Nat) (l l' : FLink F) (hl : (Sys.run s pre).1.links[j]? = some l)
+    (hl' : (Sys.run s (pre ++ [e])).1.links[j]? = some l') :
+    (l.core.cong.fastRecovery = false → l'.core.cong.fastRecovery = true →
+      ∃ now cid data, e = .uplink now cid data ∧ Codec.getPacketTypeS data = some 0x8003 ∧
+        l'.core.window ≤ 2000 ∧ l'.core.window ≤ l.core.window) ∧
+    (l.core.cong.fastRecovery = true → l'.core.cong.fastRecovery = false →
+      (12000 ≤ l'.core.window ∧
+        ((∃ now cid data, e = .uplink now cid data ∧ Codec.getPacketTypeS data = some 0x9100 ∧
+            (Sys.run s pre).1.cfg.classic = false) ∨
+         (∃ now, e = .hk now))) ∨
+      (∃ now cid data, e = .uplink now cid data ∧ Codec.getPacketTypeS data = some 0x9202 ∧
+        (Sys.run s pre).1.links.findIdx? (·.core.connId == cid) = some j ∧ l'.core.cong = {})) := by
+  rw [run_snoc] at hl'
+  exact C06_fast_recovery_sys _ e (rangeInv_run s pre h) j l l' hl hl'
+
+/-- **(a) along any run**: `C06_direction_sys` for the last event of every run from an invariant state. -/
+theorem C06_direction_run (s : Sys.Sys F) (pre : List Sys.Ev) (e : Sys.Ev)
+    (h : ∀ l ∈ s.links, LogInv l.core ∧ 1000 ≤ l.core.window ∧ l.core.window ≤ 60000 ∧ 0 ≤ l.core.inFlight ∧
+      ∀ it ∈ l.queue, ∀ sq, it.2.1 = some sq → sq < 2147483648)
+    (j : Nat) (l l' : FLink F) (hl : (Sys.run s pre).1.links[j]? = some l)
+    (hl' : (Sys.run s (pre ++ [e])).1.links[j]? = some l') :
+    match (generalizing := false) e with
+    | .client _ _ => l'.core.cong = l.core.cong ∧ (l'.core.window = l.core.window ∨ l'.core.window = 20000)
+    | .flush _ => l'.core.window = l.core.window ∧ l'.core.cong = l.core.cong
+    | .setCfg _ => l' = l
+    | .crit _ => l' = l
+    | .failNext _ => l' = l
+    | .uplink _ _ data =>
+        (Codec.getPacketTypeS data = none → l' = l) ∧
+        ∀ pt, Codec.getPacketTypeS data = some pt →
+          (pt ≠ 0x9100 → pt ≠ 0x9210 → l'.core.window ≤ l.core.window) ∧
+          (pt ≠ 0x8003 → pt ≠ 0x9210 → l.core.window ≤ l'.core.window) ∧
+          (pt = 0x9210 → l'.core.window = l.core.window ∨ l'.core.window = 20000)
+    | .hk _ =>
+        l'.core.window = 20000 ∨
+        (l.core.window ≤ l'.core.window ∧ ((Sys.run s pre).1.cfg.classic = true → l'.core.window = l.core.window)) := by
+  rw [run_snoc] at hl'
+  exact C06_direction_sys _ e (rangeInv_run s pre h) j l l' hl hl'
+
+end fastrecovery
+
+/-! ## Non-vacuity: a concrete shell state and concrete events for every clause -/
+
+section examples
+
+/-- Toy scalar (`Lemmas/SelectFrame.lean`) used ONLY by the `example`s, to have concrete links. -/
+local instance exScalar : Scalar Int := Select.fixScalar
+
+/-- Link 0 (conn id 1): live, window 2050 (one NAK above the fast-recovery threshold), holds 5 and 7, three
+datagrams waiting in a low-activity batch queue (threshold 4).  Link 1 (conn id 2): live, IN fast recovery at
+window 11990, last NAK at 1000. -/
+def exSysD : Sys.Sys Int :=
+  { links :=
+      [{ (FLink.newRegistering 1 0 : FLink Int) with
+          core := { connId := 1, connected := true, phase := .live, window := 2050, inFlight := 2,
+                    log := [(5, 100), (7, 120)], highestAcked := 4, lastReceived := some 4990 },
+          established := 1, regime := .low,
+          queue := [([0, 0, 0, 9, 0, 0, 0, 0], some 9, 4000), ([0, 0, 0, 10, 0, 0, 0, 0], some 10, 4001),
+                    ([0, 0, 0, 11, 0, 0, 0, 0], some 11, 4002)] },
+       { (FLink.newRegistering 2 0 : FLink Int) with
+          core := { connId := 2, connected := true, phase := .live, window := 11990, lastReceived := some 4990,
+                    cong := { fastRecovery := true, lastNakMs := 1000, nakCount := 3 } },
+          established := 1 }],
+    reg := Srtla.Reg.Reg.new [] [] }
+
+def exNak5 : Sys.Bytes := [0x80, 0x03, 0, 0, 0, 0, 0, 5]
+def exSack7 : Sys.Bytes := [0x91, 0x00, 0, 0, 0, 0, 0, 7]
+def exData12 : Sys.Bytes := [0, 0, 0, 12, 0, 0, 0, 0, 1, 2, 3, 4]
+def exReg3 : Sys.Bytes := [0x92, 0x02]
+def exRegErr : Sys.Bytes := [0x92, 0x10]
+
+/-- The view the examples print: (window, fast-recovery flag, connected) per link. -/
+def exView (s : Sys.Sys Int) : List (Int × Bool × Bool) :=
+  s.links.map fun l => (l.core.window, l.core.cong.fastRecovery, l.core.connected)
+
+theorem exSysD_range : RangeInv exSysD := by
+  intro l hl
+  simp only [exSysD, List.mem_cons, List.not_mem_nil, or_false] at hl
+  rcases hl with rfl | rfl <;> exact ⟨by decide, by decide⟩
+
+/-- The hypothesis of the run forms (`SysInv` of `Props/SysLevel.lean`) holds of `exSysD`. -/
+theorem exSysD_inv : ∀ l ∈ exSysD.links, LogInv l.core ∧ 1000 ≤ l.core.window ∧ l.core.window ≤ 60000 ∧
+    0 ≤ l.core.inFlight ∧ ∀ it ∈ l.queue, ∀ sq, it.2.1 = some sq → sq < 2147483648 := by
+  intro l hl
+  simp only [exSysD, List.mem_cons, List.not_mem_nil, or_false] at hl
+  rcases hl with rfl | rfl
+  · refine ⟨⟨by decide, by decide, by decide⟩, by decide, by decide, by decide, ?_⟩
+    intro it hit sq hsq
+    simp only [List.mem_cons, List.not_mem_nil, or_false] at hit
+    rcases hit with rfl | rfl | rfl <;> (cases hsq; decide)
+  · refine ⟨⟨by decide, by decide, by decide⟩, by decide, by decide, by decide, ?_⟩
+    intro it hit
+    cases hit
+
+/-- The type codes of the example datagrams. -/
+example : Codec.getPacketTypeS exNak5 = some 0x8003 ∧ Codec.getPacketTypeS exSack7 = some 0x9100 ∧
+    Codec.getPacketTypeS exReg3 = some 0x9202 ∧ Codec.getPacketTypeS exRegErr = some 0x9210 := by decide
+
+/-- NAK of 5 (`C06_direction_uplink`, NAK clause; `C06_fast_recovery_sys`, ON clause): link 0 goes
+2050 → 1950 = max(2050 − 100·1, 1000) and ENTERS fast recovery at 1950 ≤ 2000; link 1 untouched. -/
+example : exView exSysD = [(2050, false, true), (11990, true, true)] ∧
+    exView (Sys.step exSysD (.uplink 5000 1 exNak5)).1 = [(1950, true, true), (11990, true, true)] := by
+  decide +kernel
+
+/-- SRTLA ACK of 7 (ACK clause): no window falls (global `+1` on both links; no earned `+29`: one packet left
+in flight, 1·1000 ≤ 2050). -/
+example : exView (Sys.step exSysD (.uplink 5000 1 exSack7)).1 = [(2051, false, true), (11991, true, true)] := by
+  decide +kernel
+
+/-- Housekeeping in enhanced mode (`C06_direction_hk`; `C06_fast_recovery_sys`, OFF clause): link 1 recovers
+11990 → 12005 and LEAVES fast recovery at 12005 ≥ 12000; in classic mode the same tick changes nothing. -/
+example : exView (Sys.step exSysD (.hk 6000)).1 = [(2110, false, true), (12005, false, true)] ∧
+    exView (Sys.step { exSysD with cfg := { classic := true } } (.hk 6000)).1 =
+      [(2050, false, true), (11990, true, true)] := by
+  decide +kernel
+
+/-- Housekeeping 15 s later: both links timed out and due — torn down to 20000, congestion state cleared. -/
+example : exView (Sys.step exSysD (.hk 20000)).1 = [(20000, false, false), (20000, false, false)] := by
+  decide +kernel
+
+/-- REG_ERR on link 1 (`C06_reset_sys` case 2): window 20000, not connected — and STILL in fast recovery
+(`mark_for_recovery` keeps the congestion state).  REG3 on link 1 (case 4): window 11990 KEPT, fast recovery
+cleared. -/
+example : exView (Sys.step exSysD (.uplink 5000 2 exRegErr)).1 = [(2050, false, true), (20000, true, false)] ∧
+    exView (Sys.step exSysD (.uplink 5000 2 exReg3)).1 = [(2050, false, true), (11990, false, true)] := by
+  decide +kernel
+
+/-- A client datagram whose threshold flush fails (`C06_direction_client`, tear-down disjunct): with a send
+failure injected for conn id 1 the fourth queued datagram triggers the flush on link 0, the send fails and the
+link is torn down to 20000; without the injection every window is unchanged. -/
+example : exView (Sys.step (Sys.step exSysD (.failNext 1)).1 (.client 5000 exData12)).1 =
+      [(20000, false, false), (11990, true, true)] ∧
+    exView (Sys.step exSysD (.client 5000 exData12)).1 = [(2050, false, true), (11990, true, true)] ∧
+    exView (Sys.step exSysD (.flush 5000)).1 = [(2050, false, true), (11990, true, true)] := by
+  decide +kernel
+
+/-- Instances of the theorems on `exSysD`. -/
+example (e : Sys.Ev) (j : Nat) (l l' : FLink Int) (hl : exSysD.links[j]? = some l)
+    (hl' : (Sys.step exSysD e).1.links[j]? = some l') :=
+  C06_fast_recovery_sys exSysD e exSysD_range j l l' hl hl'
+
+example (e : Sys.Ev) (j : Nat) (l l' : FLink Int) (hl : exSysD.links[j]? = some l)
+    (hl' : (Sys.step exSysD e).1.links[j]? = some l') :=
+  C06_direction_sys exSysD e exSysD_range j l l' hl hl'
+
+example (pre : List Sys.Ev) (e : Sys.Ev) (j : Nat) (l l' : FLink Int)
+    (hl : (Sys.run exSysD pre).1.links[j]? = some l) (hl' : (Sys.run exSysD (pre ++ [e])).1.links[j]? = some l') :=
+  C06_fast_recovery_run exSysD pre e exSysD_inv j l l' hl hl'
+
+/-- … and the premises of the two fast-recovery clauses are met on it (OFF → ON by the NAK, ON → OFF by the tick). -/
+example : ∃ l l', exSysD.links[0]? = some l ∧ (Sys.step exSysD (.uplink 5000 1 exNak5)).1.links[0]? = some l' ∧
+    l.core.cong.fastRecovery = false ∧ l'.core.cong.fastRecovery = true ∧ l'.core.window = 1950 :=
+  ⟨_, _, rfl, rfl, by decide +kernel, by decide +kernel, by decide +kernel⟩
+
+example : ∃ l l', exSysD.links[1]? = some l ∧ (Sys.step exSysD (.hk 6000)).1.links[1]? = some l' ∧
+    l.core.cong.fastRecovery = true ∧ l'.core.cong.fastRecovery = false ∧ l'.core.window = 12005 :=
+  ⟨_, _, rfl, rfl, by decide +kernel, by decide +kernel, by decide +kernel⟩
+
+example (e : Sys.Ev) (j : Nat) (l : FLink Int) (hl : exSysD.links[j]? = some l) :=
+  (C06_shell_refines exSysD e).2 j l hl
+
+example (e : Sys.Ev) (j : Nat) (l l' : FLink Int) (hl : exSysD.links[j]? = some l)
+    (hl' : (Sys.step exSysD e).1.links[j]? = some l') :=
+  C06_reset_sys exSysD e j l l' hl hl'
+
+example (pre : List Sys.Ev) (e : Sys.Ev) (j : Nat) (l l' : FLink Int)
+    (hl : (Sys.run exSysD pre).1.links[j]? = some l) (hl' : (Sys.run exSysD (pre ++ [e])).1.links[j]? = some l') :=
+  C06_direction_run exSysD pre e exSysD_inv j l l' hl hl'
+
+/-- The per-arm theorems at the concrete events printed above (links 0 / 1 of `exSysD`). -/
+example := C06_direction_uplink exSysD 5000 1 exNak5 exSysD_range 0 _ _ rfl rfl
+example := C06_direction_uplink exSysD 5000 2 exRegErr exSysD_range 1 _ _ rfl rfl
+example := C06_direction_hk exSysD 6000 exSysD_range 1 _ _ rfl rfl
+example := C06_direction_client (Sys.step exSysD (.failNext 1)).1 5000 exData12 0 _ _ rfl rfl
+example := C06_direction_flush exSysD 5000 0 _ _ rfl rfl
+example := C06_direction_config exSysD { classic := true } 7 1
+example := C06_reset_ops (FLink.newRegistering 1 0 : FLink Int) 5000 3 0
+
+/-- The abstract history lemmas on a literal history: three NAKs from 2150 (fast recovery entered at 1950). -/
+example : (run { w := 2150, cong := {}, connected := true, heard := true } [.nak 10, .nak 20, .nak 30]).w = 1850 ∧
+    (run { w := 2150, cong := {}, connected := true, heard := true } [.nak 10, .nak 20]).cong.fastRecovery = true ∧
+    (run { w := 2150, cong := {}, connected := true, heard := true } [.nak 10]).cong.fastRecovery = false := by
+  decide
+
+end examples
+
+end shell
 
 end Srtla.Props.C06
